@@ -8,8 +8,9 @@ from .universe import Universe
 from . import probes
 
 NAMES = ["a", "b", "A", "ab", "aB", "a_1", "n0", "B", "c"]
-BAD_IDS = ["9a", "a-b", "", "x" * 300, "a b", "&", "_a", "caf\u00e9", "a\u0661", "sig\u00b2", "&\u00e9t\u00e9"]
-IDS = ["a", "A", "b", "B", "ab", "AB", "&9", "x_1"]
+BAD_IDS = ["9a", "a-b", "", "x" * 300, "a b", "&", "_a", "caf\u00e9", "a\u0661", "sig\u00b2", "&\u00e9t\u00e9",
+           "x" * 256, "&" + "y" * 256]          # (one character beyond the length limits)
+IDS = ["a", "A", "b", "B", "ab", "AB", "&9", "x_1", "&_Q9", "L" + "x" * 254, "&" + "y" * 255]    # (the last two: exactly at the limits)
 
 
 class BulkArg(list):
